@@ -10,8 +10,8 @@ namespace C15
 
 /-- **cli_source_table.** The table re-extracted from `bin/martinize2` / `apply_rubber_band.py` on every run
 (`Generated/C15Cli.lean`) carries the option names, destinations, converters and defaults, the keyword ↔ option
-mapping of the constructor call, the tests of the `if/elif` chain and the processor defaults that the model
-hard-codes. -/
+mapping of the constructor call, the tests of the `if/elif` chain, the processor defaults and the statements that
+follow the construction of the processor (network, then the molecule types named again) that the model hard-codes. -/
 theorem cli_source_table :
     CliTable.options = [
       ⟨"-elastic", "elastic", "", "store_true", "False"⟩,
@@ -36,7 +36,11 @@ theorem cli_source_table :
     CliTable.processorDefaults = [("res_min_dist", "None"), ("bond_type", "None"),
       ("selector", "selectors.select_backbone"), ("bond_type_variable", "'elastic_network_bond_type'"),
       ("res_min_dist_variable", "'elastic_network_res_min_dist'"), ("domain_criterion", "always_true")] ∧
-    CliTable.constants = [("DEFAULT_BOND_TYPE", DEFAULT_BOND_TYPE), ("DEFAULT_RMD", DEFAULT_RMD)] := by
+    CliTable.constants = [("DEFAULT_BOND_TYPE", DEFAULT_BOND_TYPE), ("DEFAULT_RMD", DEFAULT_RMD)] ∧
+    CliTable.tailStatements = ["rubber_band_processor.run_system(system)",
+      "vermouth.NameMolType(deduplicate=not args.keep_duplicate_itp, molname=args.molname).run_system(system)"] ∧
+    CliTable.namingOptions = [⟨"-sep", "keep_duplicate_itp", "", "store_true", "False"⟩,
+      ⟨"-name", "molname", "str", "", "'" ++ String.ofList dfltMolname ++ "'"⟩] := by
   decide +kernel
 
 end C15
